@@ -361,6 +361,17 @@ for _cid, _m in {
     "C16": {"task_handovers": 2000},
 }.items():
     EXTRA_MIN.setdefault(_cid, {}).update(_m)
+# round 16
+for _cid, _m in {
+    "C01": {"requests_after_an_earlier_connection_with_limits": 40},
+    "C02": {"inbound_packets_beyond_the_servers_own_limit": 16},
+    "C05": {"resumptions_under_a_limit_below_a_carried_over_publish": 8},
+    "C06": {"identifier_pairs": 80},
+    "C09": {"run_given_up_while_acknowledging_cases": 3},
+    "C16": {"handovers_inside_a_packet": 30},
+    "C17": {"second_losses_with_everything_acknowledged": 500},
+}.items():
+    EXTRA_MIN.setdefault(_cid, {}).update(_m)
 for _cid, _m in EXTRA_MIN.items():
     for _tier in ("quick", "thorough"):
         CHECKS[_cid]["min_observed"].setdefault(_tier, {})
